@@ -2,11 +2,11 @@
 # tools/refactor_batch3.sh C04 [C05 ...]: verify the structural refactorings delivered in /tmp/rf3_<ID>/refactors.
 # Results are stored under the next free names (<ID>_r4, <ID>_r5, ...), never over an existing one.
 for P in "$@"; do
-  for d in /tmp/rf3_$P/refactors/r*.diff; do
+  for d in ${RF_PREFIX:-/tmp/rf3_}$P/refactors/r*.diff; do
     [ -f "$d" ] || continue
     n=$(basename $d .diff)
     k=1; while [ -d seeded_equiv/${P}_r$k ]; do k=$((k+1)); done
-    /venv/bin/python tools/refactor_verify.py $P ${P}_r$k $d /tmp/rf3_$P/refactors/${n}_demo.py /tmp/rf3_$P/refactors/${n}_notes.md 2>/dev/null | python3 -c "
+    /venv/bin/python tools/refactor_verify.py $P ${P}_r$k $d ${RF_PREFIX:-/tmp/rf3_}$P/refactors/${n}_demo.py ${RF_PREFIX:-/tmp/rf3_}$P/refactors/${n}_notes.md 2>/dev/null | python3 -c "
 import sys,json
 d=json.load(sys.stdin)
 print(d['name'], '(from $n)', 'suite', d.get('suite_passes'), 'same-output', d.get('demo_output_identical'), 'SILENT' if d.get('silent') else 'ALARMS')
